@@ -150,11 +150,17 @@ def mutate_attr(
     return obj
 
 
-def invalidate_attrs(obj: Any, attr: str, invalidation_map: Dict[str, Set[str]] = None):
+def invalidate_attrs(
+    obj: Any,
+    attr: str,
+    invalidation_map: Dict[str, Set[str]] = None,
+    _visited: Optional[Set[str]] = None,
+):
     if invalidation_map is None:
         invalidation_map = obj.__spec_class__.invalidation_map
     if not invalidation_map:
         return
+    visited = {attr} if _visited is None else _visited
 
     # Handle invalidation
     for invalidatee in invalidation_map.get(attr, set()) | invalidation_map.get(
@@ -165,7 +171,11 @@ def invalidate_attrs(obj: Any, attr: str, invalidation_map: Dict[str, Set[str]] 
         try:
             delattr(obj, invalidatee)
         except AttributeError:
-            pass
+            # Nothing stored for `invalidatee` (e.g. an uncached property), but
+            # whatever depends on it may still hold a stale value.
+            if invalidatee not in visited:
+                visited.add(invalidatee)
+                invalidate_attrs(obj, invalidatee, invalidation_map, visited)
 
 
 def mutate_value(
